@@ -105,10 +105,10 @@ def run(pid, tier, seed, labels, terminal_labels, e1_cfgs, e1_invariants, e1_pro
                              'schedule': rec.schedule if rec else None})
 
     # ---- E1 -------------------------------------------------------------------------------------------------
-    jobs = [(c, e1_invariants, e1_properties, e1_timeout, max(2, 16 // max(1, len(e1_cfgs)))) for c in e1_cfgs]
+    jobs = [(c, e1_invariants, e1_properties, e1_timeout, os.cpu_count() or 8) for c in e1_cfgs]
     cex = []
-    with cf.ThreadPoolExecutor(max_workers=len(jobs) or 1) as ex:
-        for cfg, r, acts in ex.map(e1_run, jobs):
+    if True:
+        for cfg, r, acts in map(e1_run, jobs):
             v.add_tlc(f'Cluster {cfg.name}', r)
             if r.violated:
                 cex.append((cfg, r, acts))
